@@ -1,12 +1,13 @@
 ------------------------------ MODULE LifeMon ------------------------------
 (***************************************************************************)
 (* C39 monitor: transport closes exactly when the last handle goes; graceful  *)
-(* shutdown completes after, and only after, in-flight handlers have replied.  *)
+(* shutdown (through any number of handles at once) completes after, and only  *)
+(* after, in-flight handlers have replied.                                     *)
 (***************************************************************************)
 EXTENDS Naturals, Sequences, FiniteSets, Json, IOUtils, TLC
 Rec == ndJsonDeserialize(IOEnv.TRACE)
 VARIABLES tr, pos, ms
-Fresh == [scn |-> 0, calls |-> {}, started |-> {}, replied |-> {}, shut |-> "no", rclosed |-> FALSE, wclosed |-> FALSE, faulted |-> FALSE]
+Fresh == [scn |-> 0, calls |-> {}, started |-> {}, replied |-> {}, shut |-> 0, shutdone |-> 0, rclosed |-> FALSE, wclosed |-> FALSE, faulted |-> FALSE]
 Init == tr = Rec /\ pos = 0 /\ ms = Fresh
 Report(what, detail) == PrintT(<<"MISMATCH", ToJson([line |-> pos + 1, id |-> ms.scn, what |-> what, detail |-> detail])>>)
 SerialOfCall(k) == LET S == {c \in ms.calls : c[1] = k} IN IF S = {} THEN 0 ELSE (CHOOSE c \in S : TRUE)[2]
@@ -21,7 +22,8 @@ Check(e) ==
                 \/ Report("c39-transport-closed-while-handles-remain", [handles |-> e.handles, running |-> Running]))
          /\ ((e.handles = 0 /\ Running = {}) => (e.read_closed /\ e.write_closed)
                 \/ Report("c39-transport-not-closed-after-last-handle", e))
-         /\ ((ms.shut = "waiting" /\ Running = {} /\ e.handles = 0) => Report("c39-shutdown-hangs", e))
+         \* every graceful_shutdown() started through some handle has completed (ms.shut counts the waiting ones)
+         /\ ((ms.shut > 0 /\ Running = {} /\ e.handles = 0) => Report("c39-shutdown-hangs", [waiting |-> ms.shut, completed |-> ms.shutdone]))
     [] e.ev = "Panic" -> Report("panic", e)
     [] OTHER -> TRUE
 Upd(e) ==
@@ -29,8 +31,8 @@ Upd(e) ==
     [] e.ev = "PeerCall" -> [ms EXCEPT !.calls = @ \cup {<<e.k, e.serial>>}]
     [] e.ev = "HandlerStart" -> [ms EXCEPT !.started = @ \cup {e.k}]
     [] e.ev = "Wire" -> IF e.type \in {"return", "error"} THEN [ms EXCEPT !.replied = @ \cup {e.reply_serial}] ELSE ms
-    [] e.ev = "ShutdownStart" -> [ms EXCEPT !.shut = "waiting"]
-    [] e.ev = "ShutdownDone" -> [ms EXCEPT !.shut = "done"]
+    [] e.ev = "ShutdownStart" -> [ms EXCEPT !.shut = @ + 1]
+    [] e.ev = "ShutdownDone" -> [ms EXCEPT !.shut = IF @ > 0 THEN @ - 1 ELSE 0, !.shutdone = @ + 1]
     [] e.ev = "ReadHalfDropped" -> [ms EXCEPT !.rclosed = TRUE]
     [] e.ev = "WriteHalfDropped" -> [ms EXCEPT !.wclosed = TRUE]
     [] OTHER -> ms
